@@ -77,6 +77,9 @@ func stalledBase(variant string, k int) scenarioT {
 		HK:      []hkT{{Kind: "sys"}, {Kind: "clients"}, {Kind: "inflight"}, {Kind: "wills"}},
 		Inline:  []inlineOpT{{Op: "pub", Topic: "t/1"}},
 		Stalled: &stalledT{Variant: variant, Ver: byte(4 + k%2), Qos: byte(k % 2), Limit: []int{64, 1, 1024, 4096}[k%4], Size: 300, Clean: k%2 == 0}}
+	if variant == "disconnect-expiry" {
+		sc.Stalled.Ver = 5 // the expiry update exists in v5 only
+	}
 	for g := 0; g < 6; g++ {
 		script := []stepT{{Op: "connect", ID: fmt.Sprintf("f%d", g), Ver: byte(4 + g%2), Clean: true, Ack: "all"},
 			{Op: "sub", Filters: []filterT{{F: "t/#", Q: byte(g % 2)}}}}
@@ -96,7 +99,7 @@ func stalledBase(variant string, k int) scenarioT {
 // the one whose progress would have closed the stalled connection. Everything else goes by stallSignature.
 func nameStall(sc scenarioT, ws []waiterT) (sig string, culprit *waiterT) {
 	if sc.Stalled != nil {
-		marker := map[string]string{"disconnect": "Server.processDisconnect", "takeover": "Server.inheritClientSession", "server-close": "Server.closeListenerClients"}[sc.Stalled.Variant]
+		marker := map[string]string{"disconnect": "Server.processDisconnect", "disconnect-expiry": "Server.processDisconnect", "takeover": "Server.inheritClientSession", "server-close": "Server.closeListenerClients"}[sc.Stalled.Variant]
 		has := func(w waiterT, f string) bool {
 			for _, x := range w.Frames {
 				if x == f {
